@@ -1136,4 +1136,112 @@ theorem passDecryptIO_cases {P : Prims} {pw : Bytes} {src s' : Src} {k k' : Snk}
         refine Or.inr ⟨s2, _, hi2, by omega, ?_, suffix_trans hsc1 hsc2, hIO, by rw [hi2]; exact hP⟩
         simp only [List.length_drop] at hlh; omega
 
+/-! ### the entry points on success, without reference to a pure run (for the hypothesis-free form (b′)) -/
+
+open Generated in
+/-- the pure `key_decrypt` once the header is known to be acceptable -/
+theorem keyDecrypt_of_header {P : Prims} {r rpk inp pk spk h : Bytes}
+    (hlen : 4 + handshakeLen ≤ inp.length) (hv : validFileFormat (inp.take 4) = some true)
+    (hrm : Noise.readMessage P (inp.take 4) r rpk ((inp.drop 4).take handshakeLen) = .ok (pk, spk, h))
+    (hpk : pk.length = 32) :
+    keyDecrypt P r rpk inp =
+      ((decryptChunks P.aead (P.hkdfFile pk h) [] chunkSize ((inp.drop 4).drop handshakeLen)).1,
+       (decryptChunks P.aead (P.hkdfFile pk h) [] chunkSize ((inp.drop 4).drop handshakeLen)).2,
+       if (decryptChunks P.aead (P.hkdfFile pk h) [] chunkSize ((inp.drop 4).drop handshakeLen)).2 = .ok then some spk else none) := by
+  unfold keyDecrypt
+  have h1 : ¬ inp.length < 4 := by omega
+  have h2 : ¬ (inp.drop 4).length < handshakeLen := by simp only [List.length_drop]; omega
+  have h3 : ¬ pk.length ≠ 32 := by simp [hpk]
+  rw [if_neg h1]
+  simp only [hv, if_neg h2, hrm, if_neg h3]
+
+open Generated in
+/-- a successful `key_decrypt` at the I/O level, ALL scripts: the header was read as it is and accepted -/
+theorem keyDecryptIO_ok {P : Prims} {r rpk : Bytes} {src s' : Src} {k k' : Snk} {snd : Option Bytes}
+    (hIO : keyDecryptIO P r rpk src k = (.ok, s', k', snd)) :
+    ∃ (s2 : Src) (pk h spk : Bytes), 4 + handshakeLen ≤ src.inp.length ∧ validFileFormat (src.inp.take 4) = some true ∧
+      Noise.readMessage P (src.inp.take 4) r rpk ((src.inp.drop 4).take handshakeLen) = .ok (pk, spk, h) ∧ pk.length = 32 ∧
+      s2.inp = (src.inp.drop 4).drop handshakeLen ∧ s2.pos = src.pos + 4 + handshakeLen ∧
+      decryptChunksIO P.aead (P.hkdfFile pk h) [] chunkSize s2 k = (.ok, s', k') ∧ snd = some spk := by
+  unfold keyDecryptIO at hIO
+  split at hIO
+  · simp at hIO
+  · rename_i magic s1 h4
+    obtain ⟨hm, _, hi1, hp1, _, _⟩ := Src.readExact_some _ _ _ _ _ h4
+    have hl4 := Src.readExact_some_len h4
+    subst hm
+    split at hIO
+    · simp at hIO
+    · simp at hIO
+    · rename_i hv
+      split at hIO
+      · simp at hIO
+      · rename_i msg s2 hhs
+        obtain ⟨hmsg, _, hi2, hp2, _, _⟩ := Src.readExact_some _ _ _ _ _ hhs
+        have hlh := Src.readExact_some_len hhs
+        rw [hi1] at hmsg hi2 hlh
+        subst hmsg
+        split at hIO
+        · simp at hIO
+        · rename_i pk spk h hrm
+          split at hIO
+          · simp at hIO
+          · rename_i hpk
+            rcases hd : decryptChunksIO P.aead (P.hkdfFile pk h) [] chunkSize s2 k with ⟨res0, s30, k0⟩
+            rw [hd] at hIO
+            simp only [Prod.mk.injEq] at hIO
+            obtain ⟨rfl, rfl, rfl, rfl⟩ := hIO
+            refine ⟨s2, pk, h, spk, ?_, hv, hrm, by simpa using hpk, hi2, by omega, hd, by simp⟩
+            simp only [List.length_drop] at hlh; omega
+
+open Generated in
+theorem passDecrypt_of_header {P : Prims} {pw inp : Bytes}
+    (hlen : 4 + 32 ≤ inp.length) (hv : validFileFormat (inp.take 4) = some false) :
+    passDecrypt P pw inp =
+      decryptChunks P.aead (P.kdf pw ((inp.drop 4).take 32)) (inp.take 4) chunkSize ((inp.drop 4).drop 32) := by
+  unfold passDecrypt
+  have h1 : ¬ inp.length < 4 := by omega
+  have h2 : ¬ (inp.drop 4).length < 32 := by simp only [List.length_drop]; omega
+  rw [if_neg h1]
+  simp only [hv, if_neg h2]
+
+open Generated in
+theorem passDecryptIO_ok {P : Prims} {pw : Bytes} {src s' : Src} {k k' : Snk}
+    (hIO : passDecryptIO P pw src k = (.ok, s', k')) :
+    ∃ (s2 : Src), 4 + 32 ≤ src.inp.length ∧ validFileFormat (src.inp.take 4) = some false ∧
+      s2.inp = (src.inp.drop 4).drop 32 ∧ s2.pos = src.pos + 4 + 32 ∧
+      decryptChunksIO P.aead (P.kdf pw ((src.inp.drop 4).take 32)) (src.inp.take 4) chunkSize s2 k = (.ok, s', k') := by
+  unfold passDecryptIO at hIO
+  split at hIO
+  · simp at hIO
+  · rename_i magic s1 h4
+    obtain ⟨hm, _, hi1, hp1, _, _⟩ := Src.readExact_some _ _ _ _ _ h4
+    have hl4 := Src.readExact_some_len h4
+    subst hm
+    split at hIO
+    · simp at hIO
+    · simp at hIO
+    · rename_i hv
+      split at hIO
+      · simp at hIO
+      · rename_i salt s2 hs
+        obtain ⟨hsalt, _, hi2, hp2, _, _⟩ := Src.readExact_some _ _ _ _ _ hs
+        have hlh := Src.readExact_some_len hs
+        rw [hi1] at hsalt hi2 hlh
+        subst hsalt
+        refine ⟨s2, ?_, hv, hi2, by omega, hIO⟩
+        simp only [List.length_drop] at hlh; omega
+
+/-- truncating a file after its header: the header bytes and the chunk stream of the truncated file -/
+theorem take_header (inp : Bytes) (a b n : Nat) (hlen : a + b ≤ inp.length) :
+    (inp.take (a + b + n)).take a = inp.take a ∧
+    ((inp.take (a + b + n)).drop a).take b = (inp.drop a).take b ∧
+    ((inp.take (a + b + n)).drop a).drop b = ((inp.drop a).drop b).take n ∧
+    a + b ≤ (inp.take (a + b + n)).length := by
+  refine ⟨?_, ?_, ?_, ?_⟩
+  · rw [List.take_take]; congr 1; omega
+  · rw [List.drop_take, List.take_take]; congr 1; omega
+  · rw [List.drop_take, List.drop_take]; congr 1; omega
+  · rw [List.length_take]; omega
+
 end Kestrel
